@@ -85,6 +85,12 @@ structure GenCfg where
   /-- `true` (original emitter): Loop on a root *map* type returns at once for the empty path
       (only root slices are exempted from `if len(path) == 0 { return }`). -/
   loopRootMapSkipped : Bool := true
+  /-- `true` (original emitter): a typed-nil root (`(*T)(nil)`, a `**T` whose target is nil, a nil `**T`)
+      is dereferenced by every method except DeepEqual. -/
+  nilRootPanics : Bool := true
+  /-- `true` (original library): Assign/AssignBuf (hence Set) dereference a nil pointer passed as the
+      source value (`*src.(*int)` in every arm of the type switches). -/
+  assignNilSrcPanics : Bool := true
 deriving Repr, Inhabited
 
 /-- The configuration that mirrors the tree as it is (flags flip when a `fix:` commit lands). -/
@@ -113,6 +119,8 @@ def GenCfg.fixed : GenCfg where
   setNilMapStorePanics := false
   setNilLeafPtrPanics := false
   loopRootMapSkipped := false
+  nilRootPanics := false
+  assignNilSrcPanics := false
 
 /-- After the nested block of a non-basic node: the "special case to take value by pointer"
 (compiler.go:964-975). Not emitted for the root (`v != "x"`). -/
@@ -220,6 +228,12 @@ def rootOf : Form → RootX
   | .nilPtrPtr => .panic
   | .untypedNil | .foreign => .early
 
+/-- `rootOf` under a configuration: the repaired emitter refuses a typed-nil root like a foreign argument. -/
+def rootOfC (cfg : GenCfg) (f : Form) : RootX :=
+  match rootOf f with
+  | .nilX | .panic => if cfg.nilRootPanics then rootOf f else .early
+  | x => x
+
 def flowOut : Flow → GetOut
   | .ret (some r) | .cont (some r) => r.out
   | .ret none | .cont none => .none
@@ -228,7 +242,7 @@ def flowOut : Flow → GetOut
 
 /-- GetTo (and Get, which only forwards to it). -/
 def getM (cfg : GenCfg) (n : Node) (f : Form) (v : Val) (p : List Seg) : GetOut :=
-  match rootOf f with
+  match rootOfC cfg f with
   | .early => .none
   | .panic => .panic
   | .nilX =>
